@@ -69,7 +69,7 @@ def res(r, okf) -> str:
     if kind == 'ok':
         return f'(Ok {okf(val)})'
     if val.startswith('UNMODELLED_') or val.startswith('DB:'):
-        return '(Err OutOfFuel)'
+        return '(Err UnmodelledPythonException)'
     return f'(Err {val})'
 
 
@@ -80,7 +80,7 @@ def dbres(r, okf) -> str:
     if val.startswith('DB:'):
         return f'(DbErr {val[3:]})'
     if val.startswith('UNMODELLED_'):
-        return '(DbErr (BaseErr OutOfFuel))'
+        return '(DbErr (BaseErr UnmodelledPythonException))'
     return f'(DbErr (BaseErr {val}))'
 
 
